@@ -14,6 +14,10 @@ CLAIMED = {
    text="spec/Facets.tla transcribes the restriction helpers branch by branch (Built) next to the XSD facet semantics (Sat); TLC checks Built = Sat on every (carrier, wrapper, value point, restriction set) of the abstract space (exhaustive, ~63 000 states) and every state is evaluated on the unmodified helper source compiled by path under three concrete anchorings (0, carrier/i32 maximum, minimum, values outside the i32 range); TLC compares each observed result with Sat.",
    note="trusted: TLC, the anchoring of abstract points to concrete integers and strings; floats/booleans only as 'never rejected'; facet bounds are i32 as in the helper's data type",
    technique="TLA+ transcription of the function checked exhaustively by TLC, every TLC state replayed on the real helper and judged by TLC (trace validation)"),
+ "C15": dict(level="fault_enumeration", design="DESIGN.md 6 C15",
+   text="spec/Sink.tla models write_all over a faulty sink (fail the k-th call with a kind, Ok(0), Interrupted, short writes) and the generator's call sites; TLC checks NeverPanic, NoFalseSuccess, FaultReported, ShortWritesComplete and termination for every plan/fault/cap in the bound. On the real code every document of the corpus (three TLC-printed schema sets that use every emitter plus the repository's schemas) is written to instrumented sinks with a failure at every write-call index x error kind class and with five short-write patterns; TLC judges every run against the clauses and against Sink!Predict.",
+   note="trusted: the instrumented sinks, TLC; documents with more than 2000 write calls are swept at every 997th index in the quick tier and at every index in the thorough tier",
+   technique="TLA+ model of write_all/sink faults checked by TLC + exhaustive fault injection on the real writer, runs judged by TLC (trace validation)"),
 }
 
 REASONS_NOT_YET = "check not built yet in this round (planned, see DESIGN.md section 6)"
